@@ -44,7 +44,7 @@ pub(crate) fn align_edge_points(
         let Some(edge) = segment.edge(edges) else {
             continue;
         };
-        let delta = edge.pos - edge.opos;
+        let delta = edge.pos.wrapping_sub(edge.opos);
         let mut point_ix = segment.first();
         let last_ix = segment.last();
         loop {
@@ -53,14 +53,14 @@ pub(crate) fn align_edge_points(
                 if snap {
                     point.x = edge.pos;
                 } else {
-                    point.x += delta;
+                    point.x = point.x.wrapping_add(delta);
                 }
                 point.flags.set_marker(PointMarker::TOUCHED_X);
             } else {
                 if snap {
                     point.y = edge.pos;
                 } else {
-                    point.y += delta;
+                    point.y = point.y.wrapping_add(delta);
                 }
                 point.flags.set_marker(PointMarker::TOUCHED_Y);
             }
@@ -104,16 +104,24 @@ pub(crate) fn align_strong_points(outline: &mut Outline, axis: &mut Axis) -> Opt
         let edges = axis.edges.as_mut_slice();
         // Is the point before the first edge?
         let edge = edges.first()?;
-        let delta = edge.fpos as i32 - u;
+        let delta = (edge.fpos as i32).wrapping_sub(u);
         if delta >= 0 {
-            store_point(point, dim, edge.pos - (edge.opos - ou));
+            store_point(
+                point,
+                dim,
+                edge.pos.wrapping_sub(edge.opos.wrapping_sub(ou)),
+            );
             continue;
         }
         // Is the point after the last edge?
         let edge = edges.last()?;
-        let delta = u - edge.fpos as i32;
+        let delta = u.wrapping_sub(edge.fpos as i32);
         if delta >= 0 {
-            store_point(point, dim, edge.pos + (ou - edge.opos));
+            store_point(
+                point,
+                dim,
+                edge.pos.wrapping_add(ou.wrapping_sub(edge.opos)),
+            );
             continue;
         }
         // Find enclosing edges; for a small number of edges, use a linear
@@ -163,7 +171,7 @@ pub(crate) fn align_strong_points(outline: &mut Outline, axis: &mut Axis) -> Opt
             let scale = if edge_before.scale == 0 {
                 let edge_after = edges.get(min_ix)?;
                 let scale = fixed_div(
-                    edge_after.pos - edge_before.pos,
+                    edge_after.pos.wrapping_sub(edge_before.pos),
                     edge_after.fpos as i32 - before_fpos,
                 );
                 edges[before_ix].scale = scale;
@@ -171,7 +179,11 @@ pub(crate) fn align_strong_points(outline: &mut Outline, axis: &mut Axis) -> Opt
             } else {
                 edge_before.scale
             };
-            store_point(point, dim, before_pos + fixed_mul(u - before_fpos, scale));
+            store_point(
+                point,
+                dim,
+                before_pos.wrapping_add(fixed_mul(u.wrapping_sub(before_fpos), scale)),
+            );
         }
     }
     Some(())
@@ -290,15 +302,15 @@ fn store_point(point: &mut Point, dim: Dimension, u: i32) {
 /// See <https://gitlab.freedesktop.org/freetype/freetype/-/blob/57617782464411201ce7bbc93b086c1b4d7d84a5/src/autofit/afhints.c#L1578>
 fn iup_shift(points: &mut [Point], p1_ix: usize, p2_ix: usize, ref_ix: usize) -> Option<()> {
     let ref_point = points.get(ref_ix)?;
-    let delta = ref_point.u - ref_point.v;
+    let delta = ref_point.u.wrapping_sub(ref_point.v);
     if delta == 0 {
         return Some(());
     }
     for point in points.get_mut(p1_ix..ref_ix)? {
-        point.u = point.v + delta;
+        point.u = point.v.wrapping_add(delta);
     }
     for point in points.get_mut(ref_ix + 1..=p2_ix)? {
-        point.u = point.v + delta;
+        point.u = point.v.wrapping_add(delta);
     }
     Some(())
 }
@@ -328,27 +340,27 @@ fn iup_interpolate(
     }
     let (u1, v1) = (ref_point1.u, ref_point1.v);
     let (u2, v2) = (ref_point2.u, ref_point2.v);
-    let d1 = u1 - v1;
-    let d2 = u2 - v2;
+    let d1 = u1.wrapping_sub(v1);
+    let d2 = u2.wrapping_sub(v2);
     if u1 == u2 || v1 == v2 {
         for point in points.get_mut(p1_ix..=p2_ix)? {
             point.u = if point.v <= v1 {
-                point.v + d1
+                point.v.wrapping_add(d1)
             } else if point.v >= v2 {
-                point.v + d2
+                point.v.wrapping_add(d2)
             } else {
                 u1
             };
         }
     } else {
-        let scale = fixed_div(u2 - u1, v2 - v1);
+        let scale = fixed_div(u2.wrapping_sub(u1), v2.wrapping_sub(v1));
         for point in points.get_mut(p1_ix..=p2_ix)? {
             point.u = if point.v <= v1 {
-                point.v + d1
+                point.v.wrapping_add(d1)
             } else if point.v >= v2 {
-                point.v + d2
+                point.v.wrapping_add(d2)
             } else {
-                u1 + fixed_mul(point.v - v1, scale)
+                u1.wrapping_add(fixed_mul(point.v.wrapping_sub(v1), scale))
             };
         }
     }
